@@ -249,6 +249,19 @@ Query(all, asked, times) ==
     /\ hist' = Log([op |-> "query", all |-> all, asked |-> asked, times |-> times, res |-> qres'.res,
                     post |-> Post])
 
+\* update_constraint(name, <e over an UNREGISTERED station>, ...): KeyError.  The code has removed the old constraint by
+\* the time add_constraint raises (post); an implementation that rolls back would leave the network as it was (alt).
+\* The statement decides neither, but in both cases rows, limits and names stay aligned and the network stays usable:
+\* the replay accepts either outcome (and nothing else), asks for every constraint current afterwards, and the behaviour
+\* ends with this call (last = "partial": only Finish follows).
+UpdateUnknown(name, e, limit, newname) ==
+    /\ nops = MaxOps - 1 /\ Step /\ InSeq(name, names) /\ ~Known(Eval(e))
+    /\ SetNet(Removed(Net, name)) /\ last' = "partial"
+    /\ UNCHANGED <<stations, locked>> /\ qres' = NoQ
+    /\ hist' = Log([op |-> "update_unknown", name |-> name, e |-> e, vals |-> ValTree(e), limit |-> limit,
+                    newname |-> newname, res |-> "refused", post |-> Post,
+                    alt |-> [stations |-> stations, locked |-> locked, matrix |-> matrix, mags |-> mags, names |-> names]])
+
 \* ChargingNetwork.from_json(net.to_json()): the identity on the abstract state
 RoundTrip ==
     /\ Step /\ last' = "ok" /\ qres' = NoQ /\ UNCHANGED netvars
@@ -272,6 +285,7 @@ DoAdd == \E e \in Range(menu), l \in Limits, n \in AddNames : AddConstraint(e, l
 DoRemove == \E n \in Range(names) \cup Absent : RemoveConstraint(n)
 DoUpdate == \E n \in Range(names) \cup Absent, i \in 1..NUpd, l \in Limits, nn \in NewNames :
                 UpdateConstraint(n, menu[i], l, nn)
+DoUpdateUnknown == \E n \in Range(names), i \in 1..NUpd, l \in Limits, nn \in NewNames : UpdateUnknown(n, menu[i], l, nn)
 DoQuery == \E P \in SUBSET (DOMAIN names \cup {0}), ts \in TimesMenu :
                \/ P = {0} /\ Query(TRUE, {}, ts)                                              \* constraints=None
                \/ Query(FALSE, {names[p] : p \in P \ {0}} \cup (IF 0 \in P THEN {Missing} ELSE {}), ts)
@@ -280,7 +294,7 @@ Next ==
     \/ Finish \/ Terminated
     \/ DoAdd
     \/ DoRemove
-    \/ DoUpdate
+    \/ DoUpdate \/ DoUpdateUnknown
     \/ DoQuery
     \/ RoundTrip
 
